@@ -13,7 +13,7 @@ use std::cmp::Ordering;
 use std::collections::{BTreeMap, BTreeSet, HashMap};
 use std::panic::AssertUnwindSafe;
 use std::sync::Arc;
-use tensor_store::{ScalarValue, TensorValue};
+use tensor_store::{HNSWDistanceMetric, ScalarValue, TensorValue};
 use vector_engine::{
     DistanceMetric, FilterCondition, FilterValue, FilteredSearchConfig, HNSWConfig,
     HNSWIndex, VectorCollectionConfig, VectorEngine, VectorError,
@@ -1525,6 +1525,212 @@ fn observe_foreign_index(rep: &mut Report) {
     }));
 }
 
+
+// ------------------------------------------------------------------ the HNSW index itself
+
+/// order-isomorphic image of a (non-NaN) f32 in u32: `a < b` iff `key(a) < key(b)`, `a == b` iff
+/// the keys are equal (`-0.0` and `+0.0` share a key)
+fn dist_key(d: f32) -> u32 {
+    if d == 0.0 {
+        return 0x8000_0000;
+    }
+    let b = d.to_bits();
+    if b >> 31 == 0 {
+        b | 0x8000_0000
+    } else {
+        !b
+    }
+}
+
+/// `HNSWIndex::next_random` + `random_level` (private): an xorshift on a `usize` seeded with 42,
+/// `floor(-ln(r / usize::MAX) * ml)` capped at 32.  The level is an INPUT of the model's insert
+/// (the theorems hold for every level sequence); were this copy wrong, the model's graph and
+/// therefore its search answers would differ from the real index's.
+struct LevelGen {
+    seed: usize,
+    ml: f64,
+}
+impl LevelGen {
+    fn next(&mut self) -> usize {
+        let mut s = self.seed;
+        s ^= s << 13;
+        s ^= s >> 7;
+        s ^= s << 17;
+        self.seed = s;
+        let f = (s as f64) / (usize::MAX as f64);
+        let level = (-f.ln() * self.ml).floor() as usize;
+        level.min(32)
+    }
+}
+
+fn hmetric_name(m: HNSWDistanceMetric) -> &'static str {
+    match m {
+        HNSWDistanceMetric::Cosine => "cosine",
+        HNSWDistanceMetric::Euclidean => "euclid",
+        HNSWDistanceMetric::DotProduct => "dot",
+    }
+}
+
+/// One HNSW case: a real `HNSWIndex` with a small configuration (so that beams are truncated, lists
+/// pruned and several layers exist with a few dozen nodes) against the model graph, insert by
+/// insert and search by search.  The distances the model is given are the ones the real index
+/// computes (`EmbeddingStorage::distance_dense`, public), as order keys.
+fn hnsw_case(rep: &mut Report, m: &mut Model, r: &mut Rng, directed: Option<(&str, Vec<Vec<i64>>, Vec<(Vec<i64>, usize, usize)>, (usize, usize, usize, f64), HNSWDistanceMetric)>) {
+    let stream = if directed.is_some() { "hnsw.directed" } else { "hnsw" };
+    let (vecs, queries, (cm, cm0, efc, ml), metric, label): (Vec<Vec<i64>>, Vec<(Vec<i64>, usize, usize)>, (usize, usize, usize, f64), HNSWDistanceMetric, String) = match directed {
+        Some((name, v, q, c, me)) => (v, q, c, me, name.to_string()),
+        None => {
+            let metric = *r.pick(&[HNSWDistanceMetric::Cosine, HNSWDistanceMetric::Cosine, HNSWDistanceMetric::Euclidean, HNSWDistanceMetric::DotProduct]);
+            let cm = *r.pick(&[1usize, 2, 2, 3, 4, 16]);
+            let cm0 = if r.chance(1, 2) { cm } else { 2 * cm };
+            let efc = *r.pick(&[1usize, 2, 3, 4, 8, 200]);
+            let ml = if r.chance(1, 3) { 1.0 } else { 1.0 / (cm.max(2) as f64).ln() };
+            let dim = 1 + r.below(5) as usize;
+            let narrow = r.chance(1, 2);
+            let n = match r.below(4) {
+                0 => 1 + r.below(4) as usize,
+                1 => 5 + r.below(10) as usize,
+                _ => 10 + r.below(35) as usize,
+            };
+            let mut vecs: Vec<Vec<i64>> = Vec::new();
+            for _ in 0..n {
+                let v: Vec<i64> = match r.below(10) {
+                    0 if !vecs.is_empty() => r.pick(&vecs).clone(),
+                    1 => vec![0; dim],
+                    2 if !vecs.is_empty() => {
+                        let b = r.pick(&vecs).clone();
+                        if b.iter().all(|x| x.abs() <= 32) { b.iter().map(|x| x * 2).collect() } else { b.iter().map(|x| -x).collect() }
+                    }
+                    _ => (0..dim).map(|_| if narrow { r.range(-2, 2) } else { r.range(-64, 64) }).collect(),
+                };
+                vecs.push(v);
+            }
+            let nq = 2 + r.below(5) as usize;
+            let mut queries = Vec::new();
+            for _ in 0..nq {
+                let q: Vec<i64> = if r.chance(1, 3) { r.pick(&vecs).clone() } else { (0..dim).map(|_| if narrow { r.range(-2, 2) } else { r.range(-64, 64) }).collect() };
+                let k = *r.pick(&[1usize, 1, 2, 3, 5, 50]);
+                let ef = *r.pick(&[1usize, 2, 3, 5, 50]);
+                queries.push((q, k, ef));
+            }
+            (vecs, queries, (cm, cm0, efc, ml), metric, String::new())
+        }
+    };
+    let cfg = HNSWConfig { m: cm, m0: cm0, ef_construction: efc, ef_search: 50, ml, distance_metric: metric, ..HNSWConfig::default() };
+    let idx = HNSWIndex::with_config(cfg);
+    let mut lg = LevelGen { seed: 42, ml };
+    let head = format!("hnew {cm} {cm0} {efc}");
+    let mut trace: Vec<String> = vec![format!("{head} ml={ml} metric={}", hmetric_name(metric))];
+    let a = m.ask(&head);
+    rep.compare(&format!("{stream}.new"), || json!({"trace": trace}), "ok", &a);
+    let mut max_level = 0usize;
+    let mut nontrivial = false;
+    // searches are interleaved with the inserts: after every insert with some probability, and all at the end
+    let search_now = |idx: &HNSWIndex, n: usize, q: &[i64], k: usize, ef: usize, rep: &mut Report, m: &mut Model, trace: &mut Vec<String>, nontrivial: &mut bool| {
+        let qf = f32s(q);
+        let ds: Vec<f32> = (0..n).map(|j| idx.get_embedding(j).map_or(f32::NAN, |e| e.distance_dense(&qf, metric))).collect();
+        if ds.iter().any(|d| d.is_nan()) {
+            rep.hit("hnsw.skipped_nan_distance");
+            return;
+        }
+        let keys: Vec<u32> = ds.iter().map(|d| dist_key(*d)).collect();
+        let line = format!("hsearch {k} {ef} {}", if keys.is_empty() { "-".to_string() } else { keys.iter().map(|x| x.to_string()).collect::<Vec<_>>().join(",") });
+        trace.push(format!("{line}   # q={}", ints(q)));
+        let real = guarded(AssertUnwindSafe(|| idx.search_with_ef(&qf, k, ef)));
+        let imp = match &real {
+            Ok(res) => {
+                // the score reported for a node is to_similarity(the distance of THAT node)
+                let mut s = Vec::new();
+                let mut score_ok = true;
+                for (id, sc) in res {
+                    let d = ds.get(*id).copied().unwrap_or(f32::NAN);
+                    if metric.to_similarity(d).to_bits() != sc.to_bits() {
+                        score_ok = false;
+                    }
+                    s.push(format!("{id}:{}", dist_key(d)));
+                }
+                if res.len() > 1 {
+                    *nontrivial = true;
+                }
+                rep.hit(if res.len() < k.min(n) { "hnsw.search.fewer_than_min(k,n)" } else { "hnsw.search.full" });
+                format!("ok {}{}", if s.is_empty() { "-".to_string() } else { s.join(",") }, if score_ok { "" } else { " score-not-of-that-node" })
+            }
+            Err(p) => format!("panic: {p}"),
+        };
+        let ans = m.ask(&line);
+        rep.compare(&format!("{stream}.search_with_ef"), || json!({"trace": trace, "metric": hmetric_name(metric)}), &imp, &ans);
+        // property oracle on the real index's own output: distinct ids, in range, ordered, at most k
+        if let Ok(res) = &real {
+            let ids: BTreeSet<usize> = res.iter().map(|x| x.0).collect();
+            let bad = ids.len() != res.len() || res.len() > k || res.iter().any(|x| x.0 >= n) || res.windows(2).any(|w| w[0].1 < w[1].1);
+            if bad {
+                rep.violation("tensor_store.hnsw.search_with_ef/contract", "duplicate / out-of-range / unordered / more than k results", json!({"trace": trace, "result": format!("{res:?}")}));
+            }
+            // exhaustive beam on a connected layer 0 is exact: count how often the answer is the true top-k
+            let mut truth: Vec<(u32, usize)> = keys.iter().enumerate().map(|(i, k)| (*k, i)).collect();
+            truth.sort();
+            let exact = res.iter().zip(truth.iter()).all(|(a, b)| keys[a.0] == b.0) && res.len() == k.min(n);
+            rep.hit(if exact { "hnsw.recall.exact_topk" } else { "hnsw.recall.approximate" });
+        }
+    };
+    let mut pending = queries.clone();
+    for (i, v) in vecs.iter().enumerate() {
+        let vf = f32s(v);
+        let level = lg.next();
+        max_level = max_level.max(level);
+        let ds: Vec<f32> = (0..i).map(|j| idx.get_embedding(j).map_or(f32::NAN, |e| e.distance_dense(&vf, metric))).collect();
+        if ds.iter().any(|d| d.is_nan()) {
+            rep.hit("hnsw.skipped_nan_distance");
+            return;
+        }
+        let id = guarded(AssertUnwindSafe(|| idx.insert(vf.clone())));
+        let line = format!("hins {level} {}", if ds.is_empty() { "-".to_string() } else { ds.iter().map(|d| dist_key(*d).to_string()).collect::<Vec<_>>().join(",") });
+        trace.push(format!("{line}   # v={}", ints(v)));
+        let ans = m.ask(&line);
+        let imp = match id {
+            Ok(id) => format!("ok {id}"),
+            Err(p) => format!("panic: {p}"),
+        };
+        // the model also reports entry point and top layer, which the real index keeps private
+        let ans_id = ans.split(" entry=").next().unwrap_or(&ans).to_string();
+        rep.compare(&format!("{stream}.insert"), || json!({"trace": trace}), &imp, &ans_id);
+        rep.hit(&format!("hnsw.level.{}", level.min(3)));
+        if r.chance(1, 4) && !pending.is_empty() {
+            let (q, k, ef) = pending[r.below(pending.len() as u64) as usize].clone();
+            search_now(&idx, i + 1, &q, k, ef, rep, m, &mut trace, &mut nontrivial);
+        }
+    }
+    for (q, k, ef) in pending.drain(..) {
+        search_now(&idx, vecs.len(), &q, k, ef, rep, m, &mut trace, &mut nontrivial);
+    }
+    rep.hit(&format!("hnsw.cfg.m={cm}"));
+    rep.hit(&format!("hnsw.metric.{}", hmetric_name(metric)));
+    rep.hit(if vecs.len() > cm0 { "hnsw.n>m0(pruning possible)" } else { "hnsw.n<=m0" });
+    rep.hit(if max_level > 0 { "hnsw.multi_layer" } else { "hnsw.single_layer" });
+    let key = format!("{label}{}", trace.join(";"));
+    rep.case(stream, if nontrivial { Some(&key) } else { None });
+    if label == "line-pruned" {
+        rep.sample(json!({"stream": stream, "trace": trace.iter().take(8).collect::<Vec<_>>()}));
+    }
+}
+
+fn hnsw_stream(rep: &mut Report, m: &mut Model, root: &Rng, scale: u64) {
+    let mut r = root.fork("hnsw");
+    // directed: points on a line with m = m0 = 1 (every list is pruned to one neighbour, the
+    // layer-0 graph falls apart into pairs: the approximate answer misses the true nearest) ...
+    let line: Vec<Vec<i64>> = (0..12).map(|i| vec![i * 5 - 30, 1]).collect();
+    hnsw_case(rep, m, &mut r, Some(("line-pruned", line.clone(), vec![(vec![-30, 1], 3, 1), (vec![25, 1], 2, 2), (vec![0, 1], 50, 50)], (1, 1, 1, 0.0), HNSWDistanceMetric::Euclidean)));
+    // ... the same points with the default configuration (exhaustive beam: exact)
+    hnsw_case(rep, m, &mut r, Some(("line-default", line, vec![(vec![-30, 1], 3, 1), (vec![25, 1], 2, 2), (vec![0, 1], 50, 50)], (16, 32, 200, 1.0 / 16f64.ln()), HNSWDistanceMetric::Euclidean)));
+    // ... all vectors equal / all distances tied (heap order decides everything)
+    hnsw_case(rep, m, &mut r, Some(("all-tied", vec![vec![1, 1]; 9], vec![(vec![1, 1], 4, 2), (vec![2, 2], 50, 3)], (2, 2, 2, 1.0), HNSWDistanceMetric::Cosine)));
+    // ... zero vectors (cosine distance 1.0 by convention) among real ones, many layers
+    hnsw_case(rep, m, &mut r, Some(("zeros-multilayer", vec![vec![0, 0], vec![1, 0], vec![0, 0], vec![0, 1], vec![1, 1], vec![-1, 0], vec![0, 0], vec![2, 1]], vec![(vec![1, 0], 3, 2), (vec![0, 1], 8, 1)], (2, 4, 3, 2.0), HNSWDistanceMetric::Cosine)));
+    for _ in 0..60 * scale {
+        hnsw_case(rep, m, &mut r, None);
+    }
+}
+
 // ------------------------------------------------------------------ bit-pattern round trip
 
 fn bits_stream(rep: &mut Report, m: &mut Model, root: &Rng, scale: u64) {
@@ -1624,6 +1830,7 @@ fn main() {
         }
     }
     bits_stream(&mut rep, &mut m, &root, scale);
+    hnsw_stream(&mut rep, &mut m, &root, scale);
     observe_foreign_index(&mut rep);
 
     rep.expected_branches = ["model.ranked", "model.index", "model.ann", "model.zero", "model.err", "repr.dense", "repr.sparse", "err.dim_mismatch", "err.not_found", "err.empty_vector", "err.invalid_top_k", "err.coll_exists", "err.coll_not_found"]
